@@ -166,6 +166,10 @@ impl Mapper {
     }
   }
   
+  pub fn is_held_on_output(self: &Mapper, k: &KeyCode) -> bool {
+    self.state.pass_through_keys.contains(k) || self.state.mapped_output_keys.contains(k)
+  }
+  
   pub fn release_all(self: &mut Mapper) -> Vec<Event> {
     let to_release = self.state.input_pressed_keys.clone();
     
